@@ -1078,4 +1078,89 @@ theorem reachable_acyclic {σ} (h : Reachable σ) : WF σ ∧ Acyclic σ := by
   | fresh _ ih => exact ⟨fresh_wf ih.1, fresh_acyclic ih.2⟩
   | unify _ hu ih => exact (acyclic_invariant ih.1 ih.2 hu).symm
 
+
+/-! ## Non-vacuity, and what the real code does NOT guarantee -/
+
+section Examples
+
+def s3 : Store := Store.empty.fresh.fresh.fresh
+def W : Nat := Gen.arrayWildcardLen
+
+/-- an alias chain followed by knot-tying: `?0 ~ ?1`, then `?1 ~ Vec[?0]` is refused by the occurs
+check THROUGH the alias (the seeded change `C04-occurs-check-alias` made `norm` return the variable
+instead of its root: the check then passed and the store became cyclic) -/
+example : (do let (_, σ1) ← unifyF 9 s3 (.tvar 0) (.tvar 1)
+              let (d, _) ← unifyF 9 σ1 (.tvar 1) (.vec (.tvar 0))
+              pure d) = some (some Diag.occurs) := by decide
+
+/-- a successful deep unification that binds two variables; hypotheses of `unify_sound` hold -/
+example : ∃ σ', unifyF 9 s3 (.tuple [.tvar 0, .func [.tvar 1] (.int 32 true)])
+                            (.tuple [.vec (.tvar 1), .func [.string] (.int 32 true)]) = some (none, σ') ∧
+    normF 9 σ' (.tvar 0) = some (.vec .string) := ⟨_, rfl, rfl⟩
+
+example : WF s3 ∧ Acyclic s3 := reachable_acyclic (.fresh (.fresh (.fresh .empty)))
+
+/-- a failing call keeps the bindings made before the failure (`unify_extends` and
+`acyclic_invariant` are stated for every outcome for that reason) -/
+example : ∃ σ', unifyF 9 s3 (.tuple [.tvar 0, .bool]) (.tuple [.string, .unit]) = some (some .notEqual, σ') ∧
+    normF 9 σ' (.tvar 0) = some .string := ⟨_, rfl, rfl⟩
+
+/-- a store with a cycle: `?0 ↦ Vec[?0]` -/
+def knot : Store := { Store.empty with n := 1, val := upd (fun _ => none) 0 (some (.vec (.tvar 0))) }
+
+theorem knot_loops : ∀ f, normF f knot (.tvar 0) = none ∧ normF f knot (.vec (.tvar 0)) = none
+  | 0 => by simp
+  | f+1 => by
+    obtain ⟨h1, h2⟩ := knot_loops f
+    constructor
+    · rw [normF_tvar]; simpa [knot, upd, Store.empty] using h2
+    · rw [normF_vec, h1]; rfl
+
+/-- `Acyclic` is not vacuous: on the knot no fuel suffices, i.e. the real `norm` would not return -/
+theorem cyclic_store_not_acyclic : ¬ Acyclic knot := by
+  intro h
+  obtain ⟨f, t, ht⟩ := h 0
+  rw [(knot_loops f).1] at ht
+  cases ht
+
+/-- … hence the knot is not reachable by `new_key` and `unify` -/
+example : ¬ Reachable knot := fun h => cyclic_store_not_acyclic (reachable_acyclic h).2
+
+/-- **Plain equality of the normal forms is NOT what the real `unify` establishes**: an array of the
+wildcard length unifies with an array of length 3 and nothing is bound; the two normal forms differ.
+(Replayed on the real code by the tie: the scripts of `gv unify` contain wildcard lengths.) -/
+theorem unify_sound_eq_fails :
+    ∃ σ', unifyF 9 s3 (.array W .bool) (.array 3 .bool) = some (none, σ') ∧
+      normF 9 σ' (.array W .bool) = some (.array W .bool) ∧ normF 9 σ' (.array 3 .bool) = some (.array 3 .bool) ∧
+      W ≠ 3 := ⟨_, rfl, rfl, rfl, by decide⟩
+
+/-- … and because agreement is not transitive the outcome depends on the ORDER of the constraints:
+with `?0 := [bool; W]` first, both `?0 ~ [bool; 3]` and `?0 ~ [bool; 4]` succeed; with
+`?0 := [bool; 3]` first, `?0 ~ [bool; 4]` fails. -/
+theorem wildcard_order_dependence :
+    (do let (_, σ1) ← unifyF 9 s3 (.tvar 0) (.array W .bool)
+        let (d2, σ2) ← unifyF 9 σ1 (.tvar 0) (.array 3 .bool)
+        let (d3, _) ← unifyF 9 σ2 (.tvar 0) (.array 4 .bool)
+        pure (d2, d3)) = some (none, none) ∧
+    (do let (_, σ1) ← unifyF 9 s3 (.tvar 0) (.array 3 .bool)
+        let (d2, σ2) ← unifyF 9 σ1 (.tvar 0) (.array W .bool)
+        let (d3, _) ← unifyF 9 σ2 (.tvar 0) (.array 4 .bool)
+        pure (d2, d3)) = some (none, some .arrayLen) := by decide
+
+/-- **Incompleteness of the real `unify`** (it fails although the two sides denote the same type):
+a nullary application `E[]` against the bare constructor `E` falls to the `_` arm. -/
+theorem incomplete_nullary_app :
+    (unifyF 9 s3 (.app (.enum "E") []) (.enum "E")).map (·.1) = some (some .notEqual) := by decide
+
+/-- rigid type parameters: `T` against a variable binds the variable; against anything else fails -/
+example : (unifyF 9 s3 (.param "T") (.int 32 true)).map (·.1) = some (some .paramConcrete) ∧
+          (unifyF 9 s3 (.param "T") (.param "U")).map (·.1) = some (some .paramName) ∧
+          (unifyF 9 s3 (.param "T") (.tvar 0)).map (·.1) = some none := by decide
+
+/-- `dyn` types are nominal: equal trait names or `dyn-name` -/
+example : (unifyF 9 s3 (.dyn "A") (.dyn "B")).map (·.1) = some (some .dynName) ∧
+          (unifyF 9 s3 (.dyn "A") (.dyn "A")).map (·.1) = some none := by decide
+
+end Examples
+
 end Goml.Unify
